@@ -57,6 +57,9 @@ def obligations(tier):
         o = ob("C13", "e2c." + did, "vt.harness.C13:retry", p, timeout=900)
         o["antecedents"] = ["c13_retried", "c13_reoffers"]
         obs.append(o)
+    o = ob("C13", "e2c.requested.D10", "vt.harness.C13:retry", {"did": "D10", "steps": 6, "requested_first": True}, timeout=900)
+    o["antecedents"] = ["c13_retried", "c13_reoffers"]
+    obs.append(o)
     for n in (0, 1, 2, 3):
         o = ob("C13", "e2c.D10e.n%d" % n, "vt.harness.C13:retry", {"did": "D10e", "steps": n + 3, "n": n, "d": 4}, timeout=600)
         obs.append(o)
